@@ -18,7 +18,7 @@ use crate::provx::{new_mt_rt, sse, App, Provider, Resp};
 
 const CANARY: &str = "sk-CANARY-9f2b7c41d8e64a0fb3c5";
 
-const SOURCES: [&str; 16] = [
+const SOURCES: [&str; 18] = [
     "env_rip_key",
     // the same variable with surrounding whitespace (a trailing newline from `$(cat keyfile)`)
     "env_rip_key_padded",
@@ -38,6 +38,10 @@ const SOURCES: [&str; 16] = [
     "malformed_project_single_quoted_key",
     "malformed_global_semicolon_after_key",
     "malformed_parent_unquoted_member",
+    // layers that PARSE but do not have the documented shape, the secret sitting at the mis-typed
+    // spot: whatever the diagnostics say about the shape, they must not quote the value
+    "misshaped_headers_as_one_string",
+    "misshaped_provider_entry_is_the_key",
 ];
 const OUTCOMES: [&str; 6] = ["success_with_tool_call", "http_401_echoing_request", "transport_error", "provider_500", "tool_failure", "call_without_response_id"];
 
@@ -203,6 +207,14 @@ fn worker(args: &[String]) -> i32 {
             expect_key_received = false;
             std::fs::write(proj_parent.join("repo/rip.json"), format!("{{\n  \"provider\": {{\"fixture\": {{\"endpoint\": \"{endpoint}\",\n    api_key: \"{CANARY}\"}}}},\n  \"model\": \"fixture/fixture-model\"\n}}\n")).unwrap();
         }
+        "misshaped_headers_as_one_string" => {
+            expect_key_received = false;
+            std::fs::write(root.join("rip.json"), json!({"provider": {"fixture": {"endpoint": endpoint, "headers": format!("X-Api-Key: {CANARY}")}}, "model": "fixture/fixture-model"}).to_string()).unwrap();
+        }
+        "misshaped_provider_entry_is_the_key" => {
+            expect_key_received = false;
+            std::fs::write(cfg_home.join("config.json"), json!({"provider": {"fixture": CANARY}, "model": "fixture/fixture-model"}).to_string()).unwrap();
+        }
         other => machinery_failure(&format!("unknown source {other}")),
     }
     // the authority, built as `serve` builds it
@@ -270,6 +282,76 @@ fn worker(args: &[String]) -> i32 {
     0
 }
 
+/// The CLI's own failure output. `rip` is started with the key in its environment (directly, or as
+/// the provider-specific variable that `--provider` copies over) in situations in which it can
+/// only fail: the store's authority never becomes reachable (a live process holds the lock and
+/// advertises nothing: the client gives up after its 8 s deadline), or the server it is pointed
+/// at refuses the connection. Whatever it prints, the key is not in it.
+fn cli_failures(report: &Report) {
+    let bin = format!("{}/target/debug/rip", crate::common::VERIF_DIR);
+    if !std::path::Path::new(&bin).exists() {
+        machinery_failure(&format!("{bin} is missing: ./vcheck C19 builds it (cargo build -p rip-cli)"));
+    }
+    let scenarios: Vec<(&str, Vec<&str>, Vec<(&str, &str)>, bool)> = vec![
+        ("authority_unreachable:config_doctor", vec!["config", "doctor"], vec![("RIP_OPENRESPONSES_API_KEY", CANARY)], true),
+        ("authority_unreachable:run_provider_openai", vec!["run", "hello", "--provider", "openai"], vec![("OPENAI_API_KEY", CANARY)], true),
+        ("authority_unreachable:threads_list", vec!["threads", "list"], vec![("RIP_OPENRESPONSES_API_KEY", CANARY), ("OPENROUTER_API_KEY", CANARY)], true),
+        ("server_refuses:run", vec!["run", "hello", "--server", "http://127.0.0.1:9"], vec![("RIP_OPENRESPONSES_API_KEY", CANARY)], false),
+        ("server_refuses:config_doctor", vec!["config", "--server", "http://127.0.0.1:9", "doctor"], vec![("OPENAI_API_KEY", CANARY)], false),
+    ];
+    std::thread::scope(|scope| {
+        for (label, args, envs, held_lock) in &scenarios {
+            let bin = bin.clone();
+            scope.spawn(move || {
+                let dir = crate::common::scratch_dir("c19cli");
+                let data = dir.path().join("data");
+                let ws = dir.path().join("ws");
+                std::fs::create_dir_all(data.join("authority")).unwrap();
+                std::fs::create_dir_all(&ws).unwrap();
+                if *held_lock {
+                    // this process is alive and never serves: the lock is valid, meta.json never appears
+                    let rec = json!({"pid": std::process::id(), "started_at_ms": 1, "workspace_root": ws.to_string_lossy()});
+                    std::fs::write(data.join("authority/lock.json"), format!("{rec}\n")).unwrap();
+                }
+                let mut cmd = Command::new(&bin);
+                cmd.args(args).env_clear().env("PATH", std::env::var("PATH").unwrap_or_default()).env("HOME", dir.path().join("home")).env("RIP_DATA_DIR", &data).env("RIP_WORKSPACE_ROOT", &ws).current_dir(&ws).stdin(Stdio::null()).stdout(Stdio::piped()).stderr(Stdio::piped());
+                for (k, v) in envs {
+                    cmd.env(k, v);
+                }
+                let started = std::time::Instant::now();
+                let mut child = cmd.spawn().unwrap_or_else(|e| machinery_failure(&format!("cannot start rip: {e}")));
+                // the client's own deadline is 8 s; 30 s is a hang
+                let out = loop {
+                    match child.try_wait() {
+                        Ok(Some(_)) => break child.wait_with_output().expect("output"),
+                        Ok(None) if started.elapsed() > std::time::Duration::from_secs(30) => {
+                            let _ = child.kill();
+                            break child.wait_with_output().expect("output");
+                        }
+                        Ok(None) => std::thread::sleep(std::time::Duration::from_millis(50)),
+                        Err(e) => machinery_failure(&format!("wait for rip: {e}")),
+                    }
+                };
+                report.eval(Some(&("cli_failure", label)));
+                report.count("cli_failure_runs", 1);
+                if out.status.success() {
+                    report.count("cli_failure_runs_that_did_not_fail", 1);
+                } else {
+                    report.count("cli_failure_runs_with_error_exit", 1);
+                }
+                let all = [out.stdout.clone(), out.stderr.clone()].concat();
+                if let Some(enc) = find_secret(&all) {
+                    report.violation(
+                        &format!("C19:secret_in_cli_output:{label}"),
+                        json!({"engine": "P", "harness": "c19.cli_failures", "scenario": label, "args": args, "env": envs.iter().map(|(k, _)| *k).collect::<Vec<_>>()}),
+                        &format!("`rip {}` failed and printed the key ({enc}): {}", args.join(" "), String::from_utf8_lossy(&out.stderr).replace(CANARY, "<KEY>").chars().take(300).collect::<String>()),
+                    );
+                }
+            });
+        }
+    });
+}
+
 pub fn run(opts: Opts) -> i32 {
     if opts.extra.iter().any(|a| a == "worker") {
         return worker(&opts.extra);
@@ -308,6 +390,9 @@ pub fn run(opts: Opts) -> i32 {
     report.sample(json!({"source": "env_openai_key", "outcome": "transport_error", "dump": true}));
     let exe = std::env::current_exe().expect("exe");
     let pool = rayon::ThreadPoolBuilder::new().num_threads(12).build().expect("pool");
+    std::thread::scope(|scope| {
+    let report_ref = &report;
+    scope.spawn(move || cli_failures(report_ref));
     pool.install(|| {
         cases.par_iter().for_each(|(source, outcome, dump, ov)| {
             if report.over_cap() {
@@ -366,6 +451,7 @@ pub fn run(opts: Opts) -> i32 {
                 }
             }
         });
+    });
     });
     report.finish()
 }
